@@ -503,6 +503,9 @@ static void write_evidence(CheckState& st, double wall, int nviol, const std::ve
     cov->seti("distinct_nontrivial", (int64_t) st.cases_nontrivial.size());
     cov->seti("distinct_cases_total", (int64_t) st.cases_all.size());
     cov->set("rule", sp.rule);
+    if (st.samples.empty() && !sp.batches.empty() && find_scenario(sp.batches[0].scenario)) {   // a run that stopped at its first violation still shows what a plan looks like
+        Plan pl = plan_for(sp.batches[0], 0, st.seed, 0); auto sj = Json::obj(); sj->set("scenario", pl.scenario); sj->seti("run_index", 0); auto oa = Json::arr(); for (size_t q = 0; q < pl.ops.size() && q < 14; q++) oa->push(Json::str(pl.ops[q].str().substr(0, 300))); sj->set("ops", oa); sj->seti("ops_total", (int64_t) pl.ops.size()); st.samples.push_back(sj);
+    }
     auto sm = Json::arr(); for (auto& s : st.samples) sm->push(s); cov->set("samples", sm);
     if (sp.level == "other") cov->set("explanation", sp.rule);
     cov->setd("runs_per_hour", wall > 0 ? st.evaluations / wall * 3600.0 : 0);
